@@ -20,33 +20,33 @@ func init() {
 // host functions the emulation may call: output, formatting, pure helpers. The
 // list is an allow-list on purpose: a new dependency is reported until reviewed.
 var hostAllowed = map[string]string{
-	"fmt":            "formatting / debug output only",
-	"strconv":        "pure conversions",
-	"strings":        "pure",
-	"errors":         "pure",
-	"sort":           "pure",
-	"math":           "pure",
-	"math/bits":      "pure",
-	"image":          "frame buffer object",
-	"image/color":    "pure values",
-	"image/png":      "screenshot output",
-	"io":             "output to the configured writer",
-	"bufio":          "output",
-	"encoding/json":  "decodes the constant instruction metadata at package initialisation",
-	"context":        "cancellation poll (affects only when Run stops)",
-	"unicode/utf8":   "pure",
-	"bytes":          "pure",
+	"fmt":           "formatting / debug output only",
+	"strconv":       "pure conversions",
+	"strings":       "pure",
+	"errors":        "pure",
+	"sort":          "pure",
+	"math":          "pure",
+	"math/bits":     "pure",
+	"image":         "frame buffer object",
+	"image/color":   "pure values",
+	"image/png":     "screenshot output",
+	"io":            "output to the configured writer",
+	"bufio":         "output",
+	"encoding/json": "decodes the constant instruction metadata at package initialisation",
+	"context":       "cancellation poll (affects only when Run stops)",
+	"unicode/utf8":  "pure",
+	"bytes":         "pure",
 }
 
 // individually allowed functions of otherwise forbidden packages
 var hostAllowedFuncs = map[string]string{
-	"os.Exit":               "deliberate stop on an undefined opcode / usage error",
-	"os.Create":             "screenshot output file",
-	"(*os.File).Close":      "screenshot output file",
-	"io/ioutil.ReadFile":    "reads the ROM image once during construction (an input)",
-	"os.ReadFile":           "reads the ROM image once during construction (an input)",
-	"runtime.GOMAXPROCS":    "display package initialisation (host side)",
-	"runtime.LockOSThread":  "display package initialisation (host side)",
+	"os.Exit":              "deliberate stop on an undefined opcode / usage error",
+	"os.Create":            "screenshot output file",
+	"(*os.File).Close":     "screenshot output file",
+	"io/ioutil.ReadFile":   "reads the ROM image once during construction (an input)",
+	"os.ReadFile":          "reads the ROM image once during construction (an input)",
+	"runtime.GOMAXPROCS":   "display package initialisation (host side)",
+	"runtime.LockOSThread": "display package initialisation (host side)",
 }
 
 type nondet struct {
